@@ -611,7 +611,18 @@ func runConfirm(c *fw.Ctx, setup []byte, reqs []confirmReq) {
 	}
 	sort.Strings(names)
 	for _, name := range names {
-		rs := byChild[name]
+		// at most two re-runs per place where the main goroutine was found waiting
+		var rs []confirmReq
+		perPlace := map[string]int{}
+		for _, r := range byChild[name] {
+			place := hangSig(r.B.EP, r.Text)
+			perPlace[place]++
+			if perPlace[place] <= 2 {
+				rs = append(rs, r)
+			} else {
+				c.Count("watchdog_hits_not_rerun:"+place, 1)
+			}
+		}
 		var cases [][]byte
 		for i := range rs {
 			if rs[i].Data == nil {
